@@ -129,6 +129,9 @@ func (r *Report) Sample(s any) {
 func (r *Report) Finish() {
 	known := LoadKnown()
 	dir := VerifDir()
+	if d := os.Getenv("VERIF_OUT"); d != "" {
+		dir = d // mutant / scratch runs must not overwrite the committed evidence
+	}
 	os.MkdirAll(filepath.Join(dir, "evidence"), 0o755)
 	os.MkdirAll(filepath.Join(dir, "replays"), 0o755)
 	nviol := 0
